@@ -10,6 +10,7 @@
 package main
 
 import (
+	"encoding/json"
 	"flag"
 	"fmt"
 	"os"
@@ -90,6 +91,22 @@ func main() {
 			*tier = t
 		}
 		os.Exit(runCheck(*prop, *tier, *seed, *workers, *budget, *keep, *noGuard))
+	case "genplan":
+		// development aid: write the first n random plans of a property to a directory
+		fs := flag.NewFlagSet("genplan", flag.ExitOnError)
+		prop := fs.String("prop", "C01", "")
+		n := fs.Int("n", 5, "")
+		out := fs.String("out", "/tmp/plans", "")
+		wave := fs.Int("wave", 0, "")
+		seed := fs.Uint64("seed", envSeed(), "")
+		fs.Parse(os.Args[2:])
+		c := newCheck(*prop, "quick", *seed, &Env{Sites: map[int]Site{}})
+		os.MkdirAll(*out, 0o755)
+		for i, p := range c.randomPlans(*wave, *n) {
+			b, _ := json.Marshal(p)
+			os.WriteFile(filepath.Join(*out, fmt.Sprintf("%s-%d.json", *prop, i)), b, 0o644)
+		}
+		os.Exit(0)
 	case "warm":
 		// build everything once so later checks hit a warm build cache
 		scratch := mkScratch()
